@@ -34,6 +34,15 @@ var errCtr int64
 
 var errForeign = errors.New("error of a caller, never appended to any scope")
 
+// errSame is one error value that many callers append (a sentinel such as io.ErrUnexpectedEOF): every
+// append is an appended error of its own.
+var errSame = errors.New("the same sentinel error value, appended by several callers")
+
+// sliceErr is an error of a non-comparable dynamic type (like go/scanner.ErrorList).
+type sliceErr []string
+
+func (e sliceErr) Error() string { return "slice error " + strings.Join(e, ",") }
+
 // ---- subjects -----------------------------------------------------------------------------------------
 
 type subject struct {
@@ -99,11 +108,11 @@ func hammer(r *sup.CaseResult, rng *rand.Rand, kind string, g, opsPer int) {
 	plans := make([]plan, g)
 	for i := range plans {
 		for j := 0; j < opsPer; j++ {
-			plans[i].ops = append(plans[i].ops, rng.Intn(8))
+			plans[i].ops = append(plans[i].ops, rng.Intn(10))
 		}
 	}
 	var appended sync.Map // *uerr → true
-	var nAppended, nKill, nStop, panics, listsRewritten int64
+	var nAppended, nKill, nStop, panics, listsRewritten, nSame, nSlice int64
 	var firstPanic atomic.Value
 	start := make(chan struct{})
 	var wg sync.WaitGroup
@@ -211,6 +220,12 @@ func hammer(r *sup.CaseResult, rng *rand.Rand, kind string, g, opsPer int) {
 					default:
 					}
 					runtime.Gosched()
+				case 8:
+					atomic.AddInt64(&nSame, 1)
+					s.ctx.AppendError(errSame)
+				case 9:
+					atomic.AddInt64(&nSlice, 1)
+					s.ctx.AppendError(sliceErr{"a", "b"})
 				}
 			}
 		}(plans[i])
@@ -231,17 +246,31 @@ func hammer(r *sup.CaseResult, rng *rand.Rand, kind string, g, opsPer int) {
 		}
 		r.AddObs("parent_end_trials_"+[]string{"", "kill", "append", "stop"}[parentEnd], 1)
 	}
-	signalled := nAppended+nKill+nStop > 0 || parentEnd != 0
+	signalled := nAppended+nKill+nStop+nSame+nSlice > 0 || parentEnd != 0
 	errs := s.ctx.Errors()
 	count := map[error]int{}
 	cancels := 0
+	var gotSame, gotSlice int64
 	for _, e := range errs {
+		if _, ok := e.(sliceErr); ok {
+			gotSlice++
+			continue
+		}
+		if e == errSame {
+			gotSame++
+			continue
+		}
 		if errors.Is(e, context.Canceled) && e == context.Canceled {
 			cancels++
 			continue
 		}
 		count[e]++
 	}
+	if gotSame != nSame || gotSlice != nSlice {
+		r.Violate("errors-not-retained", fmt.Sprintf("[%s] the same sentinel value was appended %d times and is listed %d times; errors of a non-comparable type were appended %d times and are listed %d times", kind, nSame, gotSame, nSlice, gotSlice), wit)
+	}
+	r.AddObs("appends_of_one_shared_error_value", nSame)
+	r.AddObs("appends_of_non_comparable_errors", nSlice)
 	missing, dup := 0, 0
 	appended.Range(func(k, _ any) bool {
 		n := count[k.(*uerr)]
@@ -267,7 +296,7 @@ func hammer(r *sup.CaseResult, rng *rand.Rand, kind string, g, opsPer int) {
 	if int64(cancels) != nKill+watcherKill {
 		r.Violate("kill-not-recorded", fmt.Sprintf("[%s] %d Kill calls but %d context.Canceled entries", kind, nKill, cancels), wit)
 	}
-	wantErr := nAppended+nKill+watcherKill > 0
+	wantErr := nAppended+nKill+watcherKill+nSame+nSlice > 0
 	if (s.ctx.Err() != nil) != wantErr {
 		r.Violate("err-accessor", fmt.Sprintf("[%s] Err()=%v although appended=%d kills=%d", kind, s.ctx.Err(), nAppended, nKill), wit)
 	}
@@ -345,9 +374,11 @@ func hammer(r *sup.CaseResult, rng *rand.Rand, kind string, g, opsPer int) {
 			r.AddObs("closes_with_a_failing_rollback_listener", 1)
 			got := map[*uerr]bool{}
 			collect(cerr, got, 0)
-			held := map[error]bool{}
+			held := map[*uerr]bool{}
 			for _, e := range s.ctx.Errors() {
-				held[e] = true
+				if u, ok := e.(*uerr); ok {
+					held[u] = true
+				}
 			}
 			for _, e := range lateErrs {
 				if !held[e] {
@@ -613,6 +644,83 @@ func waitIsStuck() bool {
 	}
 	time.Sleep(500 * time.Millisecond)
 	return look()
+}
+
+// twoTasks: two tasks (child scopes sharing the context) are registered on a scope; the first fails at once, the second notices the
+// done signal, works a little longer, fails as well and signs off. Wait() and Close() return only
+// after both have signed off, so they report both errors.
+func twoTasks(r *sup.CaseResult, rng *rand.Rand, kind string) {
+	s := newSubject(kind)
+	if s.scp == nil {
+		return
+	}
+	defer func() {
+		if s.rawPar != nil {
+			s.rawIso.Stop()
+			s.rawPar.Stop()
+		}
+	}()
+	// the tasks are child scopes on the owner's context (what a command or a pipeline task is):
+	// creating one registers it with the owner, closing it signs it off
+	c1 := scope.NewChild(s.scp, scope.ChildParams{})
+	c2 := scope.NewChild(s.scp, scope.ChildParams{})
+	e1 := &uerr{id: atomic.AddInt64(&errCtr, 1)}
+	e2 := &uerr{id: atomic.AddInt64(&errCtr, 1)}
+	work := 1 + rng.Intn(60)
+	var second int64 // 1 once the second task has signed off
+	go func() {
+		defer func() { recover() }()
+		c1.AppendError(e1)
+		c1.Close()
+	}()
+	go func() {
+		defer func() { recover() }()
+		<-c2.Done()
+		for k := 0; k < work; k++ {
+			runtime.Gosched()
+		}
+		c2.AppendError(e2)
+		atomic.StoreInt64(&second, 1)
+		c2.Close()
+	}()
+	useClose := rng.Intn(2) == 0
+	var err error
+	what := "Wait()"
+	if useClose {
+		what = "Close()"
+		func() {
+			defer func() {
+				if x := recover(); x != nil {
+					r.Violate("close-panic", fmt.Sprintf("[%s] Close panicked: %v", kind, x), nil)
+				}
+			}()
+			err = s.scp.Close()
+		}()
+	} else {
+		err = s.scp.Wait()
+	}
+	wit := map[string]any{"kind": kind, "second_task_work": work, "via": what}
+	if atomic.LoadInt64(&second) != 1 {
+		r.Violate("wait-returned-before-tasks-signed-off", fmt.Sprintf("[%s] %s returned while the second registered task had not signed off", kind, what), wit)
+	}
+	got := map[*uerr]bool{}
+	collect(err, got, 0)
+	if !got[e1] || !got[e2] {
+		r.Violate("error-not-reported", fmt.Sprintf("[%s] %s reports %v: the error of the first task present=%v, of the second task present=%v (both tasks were registered before and signed off)", kind, what, err, got[e1], got[e2]), wit)
+	}
+	if !useClose {
+		func() {
+			defer func() { recover() }()
+			s.scp.Close()
+		}()
+	}
+	if s.parent != nil {
+		func() {
+			defer func() { recover() }()
+			s.parent.Close()
+		}()
+	}
+	r.AddObs("two_failing_tasks_trials", 1)
 }
 
 // childOfDone: child creation/closing racing with and following the parent's end.
@@ -1013,7 +1121,11 @@ func main() {
 							}
 							childOfDone(r, rng, g, idx%3 == 0)
 						case "observe":
-							observers(r, rng, kinds[idx%len(kinds)])
+							if idx%4 == 3 {
+								twoTasks(r, rng, []string{"scope", "child-shared", "child-isolated"}[(idx/4)%3])
+							} else {
+								observers(r, rng, kinds[idx%len(kinds)])
+							}
 						case "cmd":
 							if m == nil {
 								var err error
@@ -1037,7 +1149,7 @@ func main() {
 			}
 		},
 		Finish: func(t *sup.Totals) string {
-			for _, k := range []string{"observer_trials", "observations_after_the_done_signal", "waits_released_by_the_done_signal", "parent_end_trials_kill", "parent_end_trials_append", "parent_end_trials_stop", "isolated_killed_by_its_watcher", "closes_with_a_failing_rollback_listener"} {
+			for _, k := range []string{"observer_trials", "observations_after_the_done_signal", "waits_released_by_the_done_signal", "parent_end_trials_kill", "parent_end_trials_append", "parent_end_trials_stop", "isolated_killed_by_its_watcher", "closes_with_a_failing_rollback_listener", "two_failing_tasks_trials", "appends_of_one_shared_error_value", "appends_of_non_comparable_errors"} {
 				if t.Obs[k] == 0 {
 					return "monitor observed nothing for " + k
 				}
